@@ -52,6 +52,17 @@ Print Assumptions c17_monitor.
    and nothing else changed; its attempt responses likewise when state is kept, and there are none otherwise.
    deepcopy (brunoga/deep MustCopy) is a premise: value-equal copy.  The original is an immutable value of the model:
    that the Go original is untouched is observed by the correspondence check (and is C18's c18_no_sharing). *)
+(* WithRemoveCompletedSequences only DROPS objects (completed actions, sequences, blocks) before the same final
+   Secure(np) (since commit c724518 that branch no longer returns early): for whatever plan q is left, every request and
+   response still in it comes back scrubbed.  Which objects are dropped is outside C17 and not modelled. *)
+Theorem c17_clone_any_kept_subset : forall q : plan_sk, plan_wf q = true ->
+  exists v', finish false (plan_gv q) = OOk v' /\
+    (forall x, sec_at v' x -> hidden x) /\
+    Forall2 (fun r' r => (forall x, sec_at r' x -> hidden x) /\ erase r' = erase r) (collect nReq v') (plan_map action_reqs q) /\
+    Forall2 (fun r' r => (forall x, sec_at r' x -> hidden x) /\ erase r' = erase r) (collect nResp v') (plan_map action_resps q).
+Proof. exact finish_any_plan. Qed.
+Print Assumptions c17_clone_any_kept_subset.
+
 Theorem c17_clone_surfaces :
   forall deepcopy : gv -> gv, (forall v, deepcopy v = v) ->
   forall keep_state : bool,
